@@ -142,9 +142,156 @@ func execC18(c Case) string {
 		tx2 := buildSortTx(a[0], a[1])
 		txsort.InPlaceSort(tx2)
 		meta = meta && bytes.Equal(sortedSer, serTx(tx2))
-		return strings.Join([]string{sortedIns, sortedOuts, b2s(wasSorted), b2s(isS), b2s(unchanged), b2s(meta), b2s(idem), b2s(indep), insTok(tx2), outsTok(tx2)}, " ")
+		return strings.Join([]string{sortedIns, sortedOuts, b2s(wasSorted), b2s(isS), b2s(unchanged), b2s(meta), b2s(idem), b2s(indep), insTok(tx2), outsTok(tx2), heapFrame(a[0], a[1])}, " ")
 	}
 	panic("harness: op")
+}
+
+// heapFrame observes WHICH MEMORY Sort / InPlaceSort / IsSorted write (the heap-level model Model/TxSortHeap.lean):
+// pointer identities, backing arrays, object contents, the slots of the backing arrays outside the slice windows.
+// "ok" or a comma-separated list of the frame clauses that do not hold.
+func heapFrame(insArg, outsArg string) string {
+	bad := []string{}
+	elemIn := func(in *wire.TxIn) string { one := wire.NewMsgTx(1); one.AddTxIn(in); return string(serTx(one)) }
+	elemOut := func(o *wire.TxOut) string { one := wire.NewMsgTx(1); one.AddTxOut(o); return string(serTx(one)) }
+	// a transaction whose slices are windows [1:1+n] of larger backing arrays holding sentinel objects outside
+	mk := func() (tx *wire.MsgTx, fullIn []*wire.TxIn, fullOut []*wire.TxOut) {
+		t := buildSortTx(insArg, outsArg)
+		sIn := func() *wire.TxIn { return wire.NewTxIn(&wire.OutPoint{Index: 7777}, []byte{0x51}) }
+		sOut := func() *wire.TxOut { return wire.NewTxOut(7777, []byte{0x51}, wire.TokenData{}) }
+		fullIn = append(append([]*wire.TxIn{sIn()}, t.TxIn...), sIn(), sIn())
+		fullOut = append(append([]*wire.TxOut{sOut()}, t.TxOut...), sOut(), sOut())
+		t.TxIn = fullIn[1 : 1+len(t.TxIn) : len(fullIn)]
+		t.TxOut = fullOut[1 : 1+len(t.TxOut) : len(fullOut)]
+		return t, fullIn, fullOut
+	}
+	snap := func(fullIn []*wire.TxIn, fullOut []*wire.TxOut) (pi []*wire.TxIn, po []*wire.TxOut, ci, co []string) {
+		pi = append(pi, fullIn...)
+		po = append(po, fullOut...)
+		for _, x := range fullIn {
+			ci = append(ci, elemIn(x))
+		}
+		for _, x := range fullOut {
+			co = append(co, elemOut(x))
+		}
+		return
+	}
+	// --- Sort: the old heap is untouched, the result is fresh
+	tx, fullIn, fullOut := mk()
+	pi, po, ci, co := snap(fullIn, fullOut)
+	hdrIn, hdrOut := tx.TxIn, tx.TxOut
+	res := txsort.Sort(tx)
+	if len(tx.TxIn) != len(hdrIn) || len(tx.TxOut) != len(hdrOut) || (len(hdrIn) > 0 && &tx.TxIn[0] != &hdrIn[0]) || (len(hdrOut) > 0 && &tx.TxOut[0] != &hdrOut[0]) {
+		bad = append(bad, "sort:slice-headers-of-original-changed")
+	}
+	for i := range fullIn {
+		if fullIn[i] != pi[i] {
+			bad = append(bad, "sort:pointer-array-of-original-written")
+			break
+		}
+	}
+	for i := range fullOut {
+		if fullOut[i] != po[i] {
+			bad = append(bad, "sort:pointer-array-of-original-written")
+			break
+		}
+	}
+	for i := range pi {
+		if elemIn(pi[i]) != ci[i] {
+			bad = append(bad, "sort:object-of-original-written")
+			break
+		}
+	}
+	for i := range po {
+		if elemOut(po[i]) != co[i] {
+			bad = append(bad, "sort:object-of-original-written")
+			break
+		}
+	}
+	old := map[interface{}]bool{}
+	for _, x := range pi {
+		old[x] = true
+	}
+	for _, x := range po {
+		old[x] = true
+	}
+	fresh := res != tx
+	for _, x := range res.TxIn {
+		fresh = fresh && !old[x]
+	}
+	for _, x := range res.TxOut {
+		fresh = fresh && !old[x]
+	}
+	if len(res.TxIn) > 0 && len(tx.TxIn) > 0 && &res.TxIn[0] == &tx.TxIn[0] {
+		fresh = false
+	}
+	if len(res.TxOut) > 0 && len(tx.TxOut) > 0 && &res.TxOut[0] == &tx.TxOut[0] {
+		fresh = false
+	}
+	if !fresh {
+		bad = append(bad, "sort:result-shares-memory-with-original")
+	}
+	// --- IsSorted reads only
+	txsort.IsSorted(tx)
+	for i := range pi {
+		if fullIn[i] != pi[i] || elemIn(pi[i]) != ci[i] {
+			bad = append(bad, "issorted:writes")
+			break
+		}
+	}
+	for i := range po {
+		if fullOut[i] != po[i] || elemOut(po[i]) != co[i] {
+			bad = append(bad, "issorted:writes")
+			break
+		}
+	}
+	// --- InPlaceSort: only the two pointer windows are written, with permutations of themselves
+	tx, fullIn, fullOut = mk()
+	pi, po, ci, co = snap(fullIn, fullOut)
+	hdrIn, hdrOut = tx.TxIn, tx.TxOut
+	txsort.InPlaceSort(tx)
+	if len(tx.TxIn) != len(hdrIn) || len(tx.TxOut) != len(hdrOut) || (len(hdrIn) > 0 && &tx.TxIn[0] != &hdrIn[0]) || (len(hdrOut) > 0 && &tx.TxOut[0] != &hdrOut[0]) {
+		bad = append(bad, "inplace:slice-headers-changed")
+	}
+	for i := range pi {
+		if elemIn(pi[i]) != ci[i] {
+			bad = append(bad, "inplace:object-written")
+			break
+		}
+	}
+	for i := range po {
+		if elemOut(po[i]) != co[i] {
+			bad = append(bad, "inplace:object-written")
+			break
+		}
+	}
+	nIn, nOut := len(hdrIn), len(hdrOut)
+	if fullIn[0] != pi[0] || fullIn[nIn+1] != pi[nIn+1] || fullIn[nIn+2] != pi[nIn+2] || fullOut[0] != po[0] || fullOut[nOut+1] != po[nOut+1] || fullOut[nOut+2] != po[nOut+2] {
+		bad = append(bad, "inplace:written-outside-the-slice-window")
+	}
+	cnt := map[interface{}]int{}
+	for _, x := range pi[1 : 1+nIn] {
+		cnt[x]++
+	}
+	for _, x := range po[1 : 1+nOut] {
+		cnt[x]++
+	}
+	for _, x := range fullIn[1 : 1+nIn] {
+		cnt[x]--
+	}
+	for _, x := range fullOut[1 : 1+nOut] {
+		cnt[x]--
+	}
+	for _, v := range cnt {
+		if v != 0 {
+			bad = append(bad, "inplace:window-not-a-permutation-of-the-same-pointers")
+			break
+		}
+	}
+	if len(bad) == 0 {
+		return "ok"
+	}
+	return strings.Join(bad, ",")
 }
 
 func genC18(r *Rng, tier string, emit func(Case)) {
@@ -183,6 +330,28 @@ func genC18(r *Rng, tier string, emit func(Case)) {
 		}
 		perm(ins, 0, func(p []string) { e("sort", "permins", strings.Join(p, ","), "-") })
 		perm(outs, 0, func(p []string) { e("sort", "permouts", "-", strings.Join(p, ",")) })
+	}
+	// two txids that differ in exactly two bytes i < j with opposite order in the two bytes: the comparison must be
+	// decided by byte j alone (the more significant one in the reversed reading), wherever i and j lie relative to any
+	// word boundary of an implementation that compares several bytes at a time
+	for i := 0; i < 32; i++ {
+		for _, d := range []int{1, 2, 3, 7, 8, 9, 15, 16, 17, 24, 31} {
+			j := i + d
+			if j >= 32 {
+				continue
+			}
+			base := r.Bytes(32)
+			ha, hb := append([]byte{}, base...), append([]byte{}, base...)
+			lo, hi := byte(r.Intn(255)), byte(0)
+			hi = lo + 1 + byte(r.Intn(int(255-lo)))
+			ha[i], ha[j] = hi, lo
+			hb[i], hb[j] = lo, hi
+			x, y := hx(ha)+":0:1", hx(hb)+":0:2"
+			if r.Bool() {
+				x, y = y, x
+			}
+			e("sort", "twobyte", x+","+y, "-")
+		}
 	}
 	n := 150
 	if tier == "thorough" {
